@@ -119,6 +119,11 @@ ExpectWith(e, a) ==
             ELSE Nothing
       \* C10: a program is a chain of steps over a leaf; Nothing propagates
       [] e.op = "program" -> LET v == RunProg(e.prog, 1, a) IN [ok |-> v.ok, shape |-> v.shape, elems |-> v.elems]
+      \* C14: extraction facts of a program's view (valid programs only)
+      [] e.op = "program_operands" -> LET v == RunProg(e.prog, 1, a)  nbin == Cardinality({q \in 1..Len(e.prog) : e.prog[q].op \in BinOps}) IN
+            IF v.ok THEN [ok |-> TRUE, shape |-> <<>>, elems |-> Range0(nbin + 1)] ELSE Nothing
+      [] e.op = "program_graph" -> LET v == RunProg(e.prog, 1, a)  nbin == Cardinality({q \in 1..Len(e.prog) : e.prog[q].op \in BinOps}) IN
+            IF v.ok THEN [ok |-> TRUE, shape |-> <<>>, elems |-> <<nbin + 1, 1, 1, 0, 1>>] ELSE Nothing
 RunProg(prog, k, v) == IF k > Len(prog) \/ ~v.ok THEN v ELSE RunProg(prog, k + 1, ExpectWith(prog[k], v))
 Expect(e) == ExpectWith(e, Operand(e, 1))    \* generators have no operand (shapes = <<>>)
 =================================================================================
